@@ -107,6 +107,7 @@ static int run_one (OrcProgram * p, const char *path, int native, const VRunCfg 
   OrcExecutor ex;
   int i, r, sig;
   char msg[300];
+  unsigned char *base0[VR_NARR];	/* element 0 of the row that is first in memory */
   memset (&A, 0, sizeof (A));
   entitlement (p, c->n, c->pchoice, &A.sh);
   for (i = 0; i < VR_NARR; i++) {
@@ -127,12 +128,19 @@ static int run_one (OrcProgram * p, const char *path, int native, const VRunCfg 
       if (A.a[i].data - front < reg[i].base + PG) return 0;
     }
   }
+  for (i = 0; i < VR_NARR; i++) if (A.sh.present[i]) {
+    base0[i] = A.a[i].data;
+    if ((c->flip >> i & 1) && c->m > 1) {	/* bottom-up: row 0 is the last row in memory, negative stride */
+      A.a[i].data += (long) (c->m - 1) * 2 * PG;
+      A.a[i].stride = -2 * PG;
+    }
+  }
   /* destinations: refill their pages (canary outside, pattern inside); sources are filled once per program and read-only */
   for (i = 0; i < VR_NARR; i++) if (A.sh.present[i] && A.sh.isdest[i]) {
     for (r = 0; r < MAXROWS; r++) memset (reg[i].base + PG * (1 + 2 * r), V_CANARY, PG);
     for (r = 0; r < c->m; r++) {
       long k;
-      for (k = 0; k < A.sh.need[i]; k++) vr_store (A.a[i].data + (long) r * 2 * PG + k * A.sh.esize[i], A.sh.esize[i], v_value (A.sh.esize[i], A.sh.isfloat[i], 2, (uint64_t) (k + r * 17)));
+      for (k = 0; k < A.sh.need[i]; k++) vr_store (base0[i] + (long) r * 2 * PG + k * A.sh.esize[i], A.sh.esize[i], v_value (A.sh.esize[i], A.sh.isfloat[i], 2, (uint64_t) (k + r * 17)));
     }
     for (r = 0; r < MAXROWS; r++) memcpy (destcopy[i][r], reg[i].base + PG * (1 + 2 * r), PG);
   }
@@ -145,8 +153,8 @@ static int run_one (OrcProgram * p, const char *path, int native, const VRunCfg 
     const char *which = "outside every array region";
     char wbuf[120];
     for (i = 0; i < VR_NARR; i++) if (A.sh.present[i] && (unsigned char *) v_sigaddr >= reg[i].base && (unsigned char *) v_sigaddr < reg[i].base + (2 * MAXROWS + 1) * PG) {
-      long off = (unsigned char *) v_sigaddr - A.a[i].data;
-      snprintf (wbuf, sizeof (wbuf), "%s array %s at byte offset %ld from element 0 of row 0 (entitled: %ld elements of %d bytes per row%s)", A.sh.isdest[i] ? "destination" : "source (read-only)",
+      long off = (unsigned char *) v_sigaddr - base0[i];
+      snprintf (wbuf, sizeof (wbuf), "%s array %s at byte offset %ld from element 0 of the first row in memory (entitled: %ld elements of %d bytes per row%s)", A.sh.isdest[i] ? "destination" : "source (read-only)",
           p->vars[i].name, off, A.sh.need[i], A.sh.esize[i], A.sh.front[i] ? ", plus leading elements" : "");
       which = wbuf;
     }
@@ -159,7 +167,7 @@ static int run_one (OrcProgram * p, const char *path, int native, const VRunCfg 
     for (r = 0; r < MAXROWS; r++) {
       unsigned char *pg = reg[i].base + PG * (1 + 2 * r);
       long lo = -1, hi = -1, b;
-      if (r < c->m) { lo = (A.a[i].data + (long) r * 2 * PG) - pg; hi = lo + (long) c->n * A.sh.esize[i]; }
+      if (r < c->m) { lo = (base0[i] + (long) r * 2 * PG) - pg; hi = lo + (long) c->n * A.sh.esize[i]; }
       for (b = 0; b < PG; b++) {
         if (b >= lo && b < hi) continue;
         if (pg[b] != destcopy[i][r][b]) {
@@ -211,6 +219,12 @@ static void explore (OrcProgram * p, const char *text, long idx)
           if (c.m > MAXROWS) continue;
           c.pchoice = (n + pc) % 5;
           bad = run_one (p, path, native, &c, pl, text);
+          /* the same rows walked bottom-up (negative strides): all arrays, and destinations only */
+          if (!bad && c.m > 1 && pc == 0 && (n % 3) == 1) {
+            c.flip = 0xfffu;
+            bad = run_one (p, path, native, &c, pl, text);
+            if (!bad) { c.flip = 0x00fu; bad = run_one (p, path, native, &c, pl, text); }
+          }
         }
       }
     }
